@@ -52,6 +52,9 @@ class Contract:
         self.axioms = _labelled(kw.pop("axioms", []), "axiom")  # definitional facts about ufuns, instantiated for this call
         self.preserves: List[str] = list(kw.pop("preserves", []))  # with modifies=["heap"]: locations guaranteed unchanged
         self.bounded: Optional[int] = kw.pop("bounded", None)  # bounded stand-in: checked only for containers of size <= K
+        # {callee qualname: [spec]}: facts assumed about the RESULT of that callee at its call sites inside this function only
+        # (typically the shape of data fetched from an untyped structure); listed in evidence as assumptions
+        self.assume_after_call: Dict[str, List[str]] = dict(kw.pop("assume_after_call", {}))
         self.dyn_classes = list(kw.pop("dyn_classes", []))  # classes whose __call__ contract serves dynamic calls
         self.dyn_result = kw.pop("dyn_result", None)  # assumed return annotation of unknown callables  # may the function allocate objects that outlive the call?  # opaque spec functions whose definition this proof may use
         if kw:
